@@ -223,6 +223,10 @@ func H_rename_pair() { verifDecodeRun(1) }
 // watcher still accepts Add/Remove
 func H_overflow_survive() { verifDecodeRun(2) }
 
+// mode 3: two event-producing records in one read (the first may be a self
+// event, IN_DELETE_SELF / IN_MOVE_SELF): the delivered order is the kernel order
+func H_order() { verifDecodeRun(3) }
+
 func verifDecodeRun(mode int) {
 	K := verifParam("K")
 	L := verifParam("L")
@@ -249,6 +253,13 @@ func verifDecodeRun(mode int) {
 				verifAssume(r0.cookie != 0 && r0.cookie == r1.cookie)
 				verifAssume(uint32(r0.wd) == verifTable[0].wd && r1.wd == r0.wd) // the watched directory "/t"
 				verifAssume(r0.ln > 0 && r1.ln > 0)
+			}
+			if mode == 3 {
+				verifAssume(r0.mask&(unix.IN_IGNORED|unix.IN_UNMOUNT|unix.IN_Q_OVERFLOW) == 0 && verifInotifyOps(r0.mask) != 0)
+				verifAssume(r1.mask&verifHousekeeping == 0 && verifInotifyOps(r1.mask) != 0)
+				verifAssume(uint32(r0.wd) == verifTable[0].wd || uint32(r0.wd) == verifTable[1].wd)
+				verifAssume(uint32(r1.wd) == verifTable[0].wd || uint32(r1.wd) == verifTable[1].wd)
+				verifAssume(r1.cookie == 0 && r1.ln == 0) // names and cookies are covered elsewhere
 			}
 			if mode == 2 {
 				verifAssume(r0.mask == unix.IN_Q_OVERFLOW && r0.ln == 0)
@@ -304,6 +315,12 @@ func verifDecodeRun(mode int) {
 	}
 	verifCheckTables(w)
 	verifJ(w, " after decoding")
+	if mode == 3 {
+		if len(exp) == 2 {
+			verifReach("order-two-events")
+		}
+		return
+	}
 	if mode == 2 {
 		verifAssert(len(errs) == 1 && len(exp) == 1, "spec: overflow announced, the next record still delivered")
 		verifReach("overflow-survive")
